@@ -13,6 +13,10 @@
 //!       a one-node graph run through `Model::run` with owned (`own` bit 1) or borrowed inputs; `same=1`
 //!       feeds one value to both operands.  Which input buffer the output reuses (pointer identity)
 //!       is the executor's operand choice + the operator's in-place decision.
+//!   `vip <Add|Sub|Mul> a=<base>@<size:stride,…> b=<base>@<size:stride,…>` → `ip=<0|1|-> shape=… data=…` | `err`
+//!       `run_in_place` with the owned operand built on explicit (non-overlapping) strides — permuted,
+//!       stepped, with a base offset — and the other operand a view with arbitrary strides
+//!       (`binary_op_in_place`: `apply_fast` vs strided `apply_indexed`, Model/InPlaceView.lean).
 //!   `cc dims=<size:stride,…> cap=<n> axis=<k> add=<m>` → `cap=<0|1>`
 //!       `Tensor::has_capacity(axis, size+add)` on an owned tensor with that layout / Vec capacity;
 //!       oracle: `Concat::run_in_place` reuses the buffer exactly when it answers 1.
@@ -452,15 +456,15 @@ fn exec_model(op: &str, int: bool, same: bool) -> rten::Model {
 }
 
 const EXEC_OPS: [(&str, bool); 9] = [
-    ("Add", false),
-    ("Mul", false),
-    ("Sub", false),
+    ("Add", true),
+    ("Mul", true),
+    ("Sub", true),
     ("Div", false),
     ("Pow", false),
     ("And", true),
     ("Or", true),
     ("Equal", true),
-    ("Less", false),
+    ("Less", true),
 ];
 
 fn exec_case(cx: &mut Ctx, models: &mut std::collections::HashMap<(usize, bool), rten::Model>, rng: &mut Rng) {
@@ -475,7 +479,7 @@ fn exec_case(cx: &mut Ctx, models: &mut std::collections::HashMap<(usize, bool),
     let own_b = rng.chance(3, 4);
     let mk = |rng: &mut Rng, s: &[usize]| -> Value {
         if int {
-            tism(rng, s, 0, 3)
+            tism(rng, s, -3, 3)
         } else {
             tfi(rng, s, 1, 4)
         }
@@ -488,7 +492,17 @@ fn exec_case(cx: &mut Ctx, models: &mut std::collections::HashMap<(usize, bool),
         run_views(&*op, &case.inputs, 1)
     };
     let model = models.entry((k, same)).or_insert_with(|| exec_model(opname, int, same));
-    let req = format!("exec {opname} a={} b={} own={}{} same={}", shp(&a), shp(&b), own_a as u8, own_b as u8, same as u8);
+    let mut req = format!("exec {opname} a={} b={} own={}{} same={}", shp(&a), shp(&b), own_a as u8, own_b as u8, same as u8);
+    let with_value = int && numel(&a) <= 48 && numel(&b) <= 48;
+    if with_value {
+        let g = |v: &Value| -> Vec<i32> {
+            match v {
+                Value::Int32Tensor(t) => t.iter().copied().collect(),
+                _ => vec![],
+            }
+        };
+        req += &format!(" ad={} bd={}", ints(&g(&va)), ints(&g(&vb)));
+    }
     let (pa, pb) = (data_ptr(&va), data_ptr(&vb));
     let r = hcommon::catch(|| {
         let mut ins: Vec<(rten::NodeId, rten::ValueOrView)> = vec![];
@@ -517,7 +531,7 @@ fn exec_case(cx: &mut Ctx, models: &mut std::collections::HashMap<(usize, bool),
     let (ans, fail) = match r {
         Ok(Ok((po, qa, qb, c))) => {
             let fail = compare(&base, &Ok(Ok(vec![c.clone()])), "Model::run vs Operator::run");
-            let ans = if c.bits.is_empty() {
+            let mut ans = if c.bits.is_empty() {
                 "reuse=na".to_string()
             } else if own_a && po == qa {
                 "reuse=a".to_string()
@@ -526,13 +540,81 @@ fn exec_case(cx: &mut Ctx, models: &mut std::collections::HashMap<(usize, bool),
             } else {
                 "reuse=none".to_string()
             };
+            if with_value {
+                ans += &format!(" shape={} data={}", shp(&c.shape), ints(&c.bits.iter().map(|&b| b as i32).collect::<Vec<_>>()));
+            }
             (ans, fail)
         }
-        Ok(Err(_)) => ("reuse=na".to_string(), None),
+        Ok(Err(_)) => (if with_value { "reuse=na err".to_string() } else { "reuse=na".to_string() }, None),
         Err(m) => (format!("panic {m}"), Some("Model::run panicked".to_string())),
     };
-    cx.out.bucket(&format!("exec:{opname}:{ans}"));
-    cx.out.case(&req, &ans, fail.as_deref(), ans == "reuse=a" || ans == "reuse=b");
+    cx.out.bucket(&format!("exec:{opname}:{}", ans.split(' ').next().unwrap_or("")));
+    cx.out.case(&req, &ans, fail.as_deref(), ans.starts_with("reuse=a") || ans.starts_with("reuse=b"));
+}
+
+fn vip_case(cx: &mut Ctx, rng: &mut Rng) {
+    let (sa, sb) = loop {
+        let (a, b) = bpair(rng);
+        if numel(&a) <= 48 && numel(&b) <= 48 {
+            break (a, b);
+        }
+    };
+    // owned operand: non-overlapping strides (contiguous / permuted / uniformly scaled)
+    let n = sa.len();
+    let mut order: Vec<usize> = (0..n).collect();
+    if rng.chance(1, 2) {
+        rng.shuffle(&mut order);
+    }
+    let scale = 1 + rng.usize_below(2);
+    let mut stra = vec![0usize; n];
+    let mut acc = scale;
+    for &d in order.iter().rev() {
+        stra[d] = acc;
+        acc *= sa[d].max(1);
+    }
+    let da: Vec<(usize, usize)> = sa.iter().copied().zip(stra.iter().copied()).collect();
+    // other operand: any strides
+    let mut strb = vec![0usize; sb.len()];
+    let mut acc = 1usize;
+    for d in (0..sb.len()).rev() {
+        strb[d] = match rng.below(4) {
+            0 => 0,
+            1 => acc * 2,
+            _ => acc,
+        };
+        acc *= sb[d].max(1);
+    }
+    let bb = rng.usize_below(3);
+    let db: Vec<(usize, usize)> = sb.iter().copied().zip(strb.iter().copied()).collect();
+    let vs = |base: usize, d: &[(usize, usize)]| format!("{base}@{}", if d.is_empty() { "-".to_string() } else { hcommon::join(d.iter().map(|(a, b)| format!("{a}:{b}")), ",") });
+    let slen = |base: usize, d: &[(usize, usize)]| if d.iter().any(|x| x.0 == 0) { base } else { base + d.iter().map(|x| (x.0 - 1) * x.1).sum::<usize>() + 1 };
+    let opname = *rng.pick(&["Add", "Sub", "Mul"]);
+    let req = format!("vip {opname} a={} b={}", vs(0, &da), vs(bb, &db));
+    let stor_a: Vec<i32> = (0..slen(0, &da) as i32).map(|i| i + 1).collect();
+    let stor_b: Vec<i32> = (0..slen(bb, &db) as i32 + 2).map(|i| 100 * (i + 1)).collect();
+    let case = Case { name: "vip", onnx: opname, domain: "", attrs: vec![], inputs: vec![Some(ti(rng, &[])), Some(ti(rng, &[]))], n_out: 1, data_inputs: vec![] };
+    let op = cx.cache.get(&case).expect("op loads");
+    let mut ptr_same = None;
+    let r = hcommon::catch(|| {
+        let ta = Tensor::<i32>::from_data_with_strides(&sa[..], stor_a.clone(), &stra[..]).map_err(|e| format!("{e:?}"))?;
+        let vb = rten_tensor::TensorView::from_slice_with_strides(&sb[..], &stor_b[bb..], &strb[..]).map_err(|e| format!("{e:?}"))?;
+        let owned: Value = ta.into();
+        let p0 = data_ptr(&owned);
+        let others: Vec<Option<ValueView>> = vec![None, Some(ValueView::from(vb))];
+        let o = run_op_in_place(&*op, vec![(0, owned)], &others, 1)?;
+        ptr_same = Some(data_ptr(&o[0]) == p0);
+        Ok::<_, String>(canon(&o[0]))
+    });
+    let ans = match r {
+        Ok(Ok(c)) => {
+            let ip = if c.bits.is_empty() { "-".to_string() } else { (ptr_same.unwrap_or(false) as u8).to_string() };
+            format!("ip={ip} shape={} data={}", shp(&c.shape), ints(&c.bits.iter().map(|&b| b as i32).collect::<Vec<_>>()))
+        }
+        Ok(Err(_)) => "err".to_string(),
+        Err(m) => format!("panic {m}"),
+    };
+    cx.out.bucket(&format!("vip:{}", ans.split(' ').next().unwrap_or("")));
+    cx.out.case(&req, &ans, None, ans.starts_with("ip=1"));
 }
 
 /// Concat in place: capacity decision (`has_capacity`) vs buffer reuse.
@@ -659,6 +741,9 @@ fn run(args: &Args) {
     let n_exec = if args.thorough { 300_000 } else { 30_000 };
     for _ in 0..n_exec {
         exec_case(&mut cx, &mut models, &mut rng);
+    }
+    for _ in 0..n_exec {
+        vip_case(&mut cx, &mut rng);
     }
     let n_cc = if args.thorough { 300_000 } else { 30_000 };
     for _ in 0..n_cc {
